@@ -243,6 +243,15 @@ func firstRoot(P *Program, v ssa.Value) ssa.Value {
 //	every possibly-false return is justified by the negation of a conjunct or a nil check.
 func (c *Ctx) isExemption(l Lit, detail *string) bool {
 	P := c.P
+	if l.Pos && l.Kind == "or" {
+		// reported if !A || !B  ==  not (A && B)
+		dm := Lit{Key: l.Key, Kind: "and", Pos: false, Fn: l.Fn, Via: l.Via, Ctx: l.Ctx}
+		for _, s := range l.Subs {
+			s.Pos = !s.Pos
+			dm.Subs = append(dm.Subs, s)
+		}
+		l = dm
+	}
 	if l.Pos {
 		return false
 	}
@@ -432,6 +441,9 @@ func (c *Ctx) ruleSitesCTOR() {
 				return c.typeKeyArgs(call.Call.Args[1], call.Call.Args[2])
 			}, &detail))
 			c.require(si, rule, "CONSTRUCTOR-INDEX(+)", ht, detail)
+			if s.Code == "CTOR01" {
+				c.literalTypeRule(si, rule)
+			}
 
 			switch s.Code {
 			case "CTOR01":
@@ -491,8 +503,19 @@ func (c *Ctx) ruleSitesCTOR() {
 						}
 					}
 				}
+				// ... or pointer operands are turned away before (a shared helper may strip)
+				skipPtr := si.take("not-pointer", func(l Lit) bool {
+					x, t, _ := typeAssertOK(l)
+					if x == nil || l.Pos || typeStr(t) != "*go/types.Pointer" {
+						return false
+					}
+					return P.RootsAllDeep(x, func(r ssa.Value) bool { return P.CallTo(r, "go/types.Unalias") != nil })
+				})
+				if len(skipPtr) > 0 {
+					stripped = false
+				}
 				if len(nm) > 0 {
-					c.check(!stripped, rule+"/NOT-POINTER(-)", si.Name, P.Pos(s.Alloc.Pos()), "the operand type of new is judged as written (no pointer stripped)",
+					c.check(!stripped, rule+"/NOT-POINTER(-)", si.Name, P.Pos(s.Alloc.Pos()), "the operand type of new is judged as written (no pointer stripped, or pointer operands skipped)",
 						"the operand type of new has a pointer stripped before it is looked up: new(*T) - which allocates a nil *T and no T - is reported as an instantiation of T")
 				}
 			case "CTOR03":
@@ -769,6 +792,7 @@ func (c *Ctx) ruleSitesTONL() {
 					return c.typeKeyArgs(call.Call.Args[1], call.Call.Args[2])
 				}, &detail))
 				c.require(si, rule, "TYPES-INDEX(+)", mem, detail)
+				c.literalTypeRule(si, rule)
 				// once per file and type: dedup keyed by package path AND type name
 				dd := si.take("dedup", func(l Lit) bool {
 					if l.Kind != "cond" || l.Pos || l.Val == nil {
@@ -837,6 +861,18 @@ func (c *Ctx) ruleSitesTONL() {
 // okFlagGuards: v is one result of a (value, ok) helper call and the bool result of the same call is a positive
 // guard of the site: the helper's zero-value answer cannot reach this use.
 func (c *Ctx) okFlagGuards(si *siteInfo, v ssa.Value) bool {
+	// (the value may have been handed on as an argument: in the site's calling context a parameter is its argument)
+	for i := 0; i < 3; i++ {
+		prm, isP := v.(*ssa.Parameter)
+		if !isP {
+			break
+		}
+		args := c.P.paramArgs(prm)
+		if len(args) != 1 {
+			break
+		}
+		v = args[0]
+	}
 	ex, ok := v.(*ssa.Extract)
 	if !ok {
 		return false
@@ -1405,4 +1441,55 @@ func (c *Ctx) pkgLevelPred() func(l Lit) bool {
 		}
 		return sawScope
 	}
+}
+
+// literalTypeRule: where a site is reached for a composite literal, the type looked up is the type of the literal
+// (TypesInfo.TypeOf(lit), defined for element literals with elided type as well), not of its type expression
+// (lit.Type is nil for `[]T{{...}}`). Judged on the TypeOf calls of the function that creates the violation, in the
+// calling context of the site (a parameter stands for the argument of that call path).
+func (c *Ctx) literalTypeRule(si *siteInfo, rule string) {
+	P := c.P
+	fn := si.S.Fn
+	if fn == nil {
+		return
+	}
+	var ofLit, ofExpr *ssa.Call
+	allInstrs(fn, func(_ *ssa.BasicBlock, ins ssa.Instruction) {
+		call, ok := ins.(*ssa.Call)
+		if !ok || P.CallTo(call, "(*go/types.Info).TypeOf") == nil || len(call.Call.Args) < 2 {
+			return
+		}
+		for _, r := range P.Resolve(call.Call.Args[1]) {
+			if fieldLoad(r, "go/ast.CompositeLit", "Type") != nil {
+				ofExpr = call
+			}
+			x, t, _ := typeAssertOKValue(r)
+			if x != nil && typeStr(t) == "*go/ast.CompositeLit" {
+				ofLit = call
+			}
+		}
+	})
+	if ofLit == nil && ofExpr == nil {
+		return // not the literal path
+	}
+	where := P.Pos(si.S.Alloc.Pos())
+	if ofExpr != nil {
+		where = P.Pos(ofExpr.Pos())
+	}
+	c.check(ofExpr == nil, rule+"/TYPE-OF-LITERAL(+)", si.Name, where,
+		"the type of a composite literal is TypesInfo.TypeOf(<the literal>)",
+		"the type of a composite literal is read from its type expression (lit.Type): element literals with elided type ([]T{{...}}, map[K]T{k: {...}}) have none and are not reported")
+}
+
+// typeAssertOKValue: v is x.(T) (plain or the value of the comma-ok form): x and T.
+func typeAssertOKValue(v ssa.Value) (ssa.Value, types.Type, bool) {
+	switch x := v.(type) {
+	case *ssa.TypeAssert:
+		return x.X, x.AssertedType, x.CommaOk
+	case *ssa.Extract:
+		if ta, ok := x.Tuple.(*ssa.TypeAssert); ok && x.Index == 0 {
+			return ta.X, ta.AssertedType, true
+		}
+	}
+	return nil, nil, false
 }
